@@ -763,7 +763,7 @@ func planC06(prop string, seed uint64, tier string, idx int) *Plan {
 		// nothing is forced: the ticker has to get to every repository on its own
 		g.p.Profile = "gc exactness (timer-driven passes only)"
 		k.GCFreqMs = int64(g.r.pick(900, 5000, 60000, 900000))
-		k.GCGraceMs = int64(g.r.pick(-1, 1, 1200, 60000))
+		k.GCGraceMs = int64(g.r.pick(-1, 1200, 1200, 60000))
 		if k.GCFreqMs >= 60000 && g.r.chance(30) {
 			k.GCGraceMs = int64(g.r.pick(0, 3600000)) // the default, one hour (with a short tick the wait would be thousands of ticks)
 		}
